@@ -346,6 +346,29 @@ func EqVariants(r *rand.Rand, defs []SDef) []SDef {
 		})
 		return c
 	}
+	// re-association: D * D against body(D) * reassociated(body(D)). The two right-hand
+	// components print alike when brackets are dropped, but they are different types.
+	for k, d := range defs {
+		var cand *SNode
+		c := cloneS(d.Body)
+		collect(c, func(x *SNode) {
+			if cand == nil && (x.K == KSend || x.K == KRecv) && x.L.K == x.K {
+				cand = x
+			}
+		})
+		if cand == nil || r.Intn(2) == 0 {
+			continue
+		}
+		// (a op b) op c  ->  a op (b op c)
+		a, bb, cc := cand.L.L, cand.L.R, cand.R
+		cand.L = a
+		cand.R = &SNode{K: cand.K, L: bb, R: cc}
+		ref := &SNode{K: KName, Name: d.Name}
+		out = append(out, SDef{Name: fmt.Sprintf("%sPairN%d", d.Name, k), Ann: d.Ann, Body: &SNode{K: KSend, L: ref, R: ref}})
+		out = append(out, SDef{Name: fmt.Sprintf("%sPairS%d", d.Name, k), Ann: d.Ann, Body: &SNode{K: KSend, L: cloneS(d.Body), R: c}})
+		out = append(out, SDef{Name: fmt.Sprintf("%sPairT%d", d.Name, k), Ann: d.Ann, Body: &SNode{K: KSend, L: cloneS(d.Body), R: cloneS(d.Body)}})
+		break
+	}
 	for k := 0; k < 3; k++ {
 		d := defs[r.Intn(n)]
 		switch r.Intn(6) {
